@@ -183,15 +183,17 @@ def rand_finite_index(rng, d):
         return _ri(rng, d)
     if r < 0.65:
         return [_ri(rng, d) for _ in range(rng.choice([1, 2, 2, 3]))]
-    if r < 0.95:
+    if r < 0.93:
         return ["slice", rng.choice([None, None, 0, 1, -1]), rng.choice([None, None, 1, 2, d, -1]), rng.choice([None, None, 1, 2])]
-    return rng.choice([d, -d - 1, [0, d]])  # out of bounds
+    # malformed: out of bounds integer / list, zero slice step (several of them may meet in one item:
+    # which exception wins is part of the model)
+    return rng.choice([d, -d - 1, [0, d], [-d - 1], ["slice", None, None, 0], ["slice", 1, None, 0]])
 
 
 def rand_order_index(rng, n, bad=0.06):
     r = rng.random()
     if r < bad:
-        return rng.choice([-1, [0, -1], ["slice", None, None, None], ["slice", -1, 2, None], ["slice", 0, -1, None], ["slice", 1, None, None], [-2]])
+        return rng.choice([-1, [0, -1], ["slice", None, None, None], ["slice", -1, 2, None], ["slice", 0, -1, None], ["slice", 1, None, None], [-2], ["slice", 0, 2, 0], ["slice", None, 1, 0]])
     r = rng.random()
     if r < 0.5:
         return rng.randint(0, n + 1)
